@@ -2,6 +2,7 @@
 from __future__ import annotations
 
 import ast
+import decimal
 import struct
 from typing import Callable, Dict, Iterable, List, Optional, Sequence, Set, Tuple
 
@@ -50,6 +51,18 @@ def expand(expr: ast.AST, defs: Dict[str, ast.expr], depth: int = 8) -> ast.AST:
             return node
 
     return T(depth).visit(fresh(expr))
+
+
+def attrs_to_names(expr: ast.AST, recv: str = "self") -> ast.AST:
+    """Parent-free copy of ``expr`` in which ``<recv>.<attr>`` is replaced by the plain name ``<recv>__<attr>`` (so that the
+    whitelisted evaluators can bind it through their environment)."""
+    class T(ast.NodeTransformer):
+        def visit_Attribute(self, node):
+            if isinstance(node.value, ast.Name) and node.value.id == recv:
+                return ast.Name(id=f"{recv}__{node.attr}", ctx=ast.Load())
+            return self.generic_visit(node)
+
+    return ast.fix_missing_locations(T().visit(fresh(expr)))
 
 
 def norm_cmp(test: ast.AST, defs: Dict[str, ast.expr], env: Optional[Dict[str, object]] = None, negate: bool = False):
@@ -168,7 +181,8 @@ class Inst:
         self.cls = cls
 
 
-_TYPES = {"int": int, "float": float, "str": str, "bytes": bytes, "bool": bool, "list": list, "tuple": tuple, "dict": dict}
+_TYPES = {"int": int, "float": float, "str": str, "bytes": bytes, "bool": bool, "list": list, "tuple": tuple, "dict": dict,
+          "decimal.Decimal": decimal.Decimal}
 _PURE = {"int": int, "float": float, "str": str, "repr": repr, "len": len, "bytes": bytes, "bool": bool, "abs": abs, "ord": ord, "chr": chr}
 _METHODS = {"encode", "decode", "lower", "upper", "strip", "join", "startswith", "endswith"}
 
@@ -330,7 +344,10 @@ class MiniEval:
             if n.keywords:
                 raise Unsupported("keyword arguments")
             if fname in self.helpers:
-                return self.helpers[fname](*args)
+                try:
+                    return self.helpers[fname](*args)
+                except (ValueError, TypeError, ArithmeticError, UnicodeError) as e:
+                    raise Raised(type(e).__name__)
             if fname in _PURE:
                 return self._builtin(fname, args)
             if isinstance(n.func, ast.Attribute):
